@@ -435,7 +435,7 @@ func c06Run(co *caseOut, in c06Input, st *c06State, op string, valid *block.Bloc
 				viol("other-header-recorded", fmt.Sprintf("rejected (%s), a different header was recorded", verdict))
 			}
 		}
-		nd, ex := c02DiffDumps(before, after, func(k string, va, vb []byte) bool {
+		allowed := func(k string, va, vb []byte) bool {
 			if !hdrRecorded {
 				return false
 			}
@@ -447,9 +447,10 @@ func c06Run(co *caseOut, in c06Input, st *c06State, op string, valid *block.Bloc
 				return true
 			}
 			return false
-		})
+		}
+		nd, ex := c02DiffDumps(before, after, allowed)
 		if nd > 0 {
-			viol("db-changed", fmt.Sprintf("rejected (%s) but the database changed in %d keys: %v", verdict, nd, ex))
+			viol("db-changed", fmt.Sprintf("rejected (%s) but the database changed in %d keys, classes=%s: %v", verdict, nd, c02DiffClasses(before, after, allowed), ex))
 		}
 		if pa := c06PoolHashes(bc); strings.Join(pa, ",") != strings.Join(poolBefore, ",") {
 			viol("mempool-changed", fmt.Sprintf("rejected (%s) but the mempool changed: %d -> %d transactions", verdict, len(poolBefore), len(pa)))
@@ -780,13 +781,13 @@ func c06OpIndex(op string) int {
 
 func c06RunH6(co *caseOut, in c06Input) error {
 	kind := "rejected-after-exec"
-	d, err := c06H6(in, in.Cfg.Backend)
+	d, cls, err := c06H6(in, in.Cfg.Backend)
 	if err != nil {
 		return err
 	}
 	if d != "" {
 		co.violation(kind, fmt.Sprintf("%s/db-changed backend=%s: a block refused by storeBlock after its trie batch was applied changes the ledger: compared with a replica that never saw it, %s", kind, in.Cfg.Backend, d), in, map[string]any{"diff": d})
 	}
-	co.add(kind, in.Cfg.Backend, true, in, map[string]any{"changed": d != ""}, fmt.Sprintf("CRejExec %s", coqBool(d != "")))
+	co.add(kind, in.Cfg.Backend, true, in, map[string]any{"changed": d != "", "classes": cls}, fmt.Sprintf("CRejExec %s", coqBool(d != "")))
 	return nil
 }
